@@ -94,11 +94,11 @@ theorem empty_ok {K : Type} {derive : Int → K} : StateOk derive State.empty :=
 
 theorem fresh_ok {K : Type} (derive : Int → K) (now : Int) : EntryOk derive (fresh derive now) := rfl
 
-theorem getCached_ok {K : Type} (derive : Int → K) (c : Option (Entry K)) (now j : Int)
+theorem getCached_ok {K : Type} (validNs : Int) (derive : Int → K) (c : Option (Entry K)) (now j : Int)
     (hc : ∀ e, c = some e → EntryOk derive e) :
-    (getCached derive c now j).1.epoch = epoch now ∧
-    EntryOk derive (getCached derive c now j).1 ∧
-    (∀ e, (getCached derive c now j).2 = some e → EntryOk derive e) := by
+    (getCached validNs derive c now j).1.epoch = epoch now ∧
+    EntryOk derive (getCached validNs derive c now j).1 ∧
+    (∀ e, (getCached validNs derive c now j).2 = some e → EntryOk derive e) := by
   unfold getCached
   cases c with
   | none =>
@@ -108,7 +108,7 @@ theorem getCached_ok {K : Type} (derive : Int → K) (c : Option (Entry K)) (now
     subst h
     exact fresh_ok derive now
   | some e0 =>
-    by_cases hx : expired e0 now j
+    by_cases hx : expired validNs e0 now j
     · simp only [hx, if_true]
       refine ⟨rfl, fresh_ok derive now, ?_⟩
       intro e h
@@ -125,24 +125,24 @@ theorem getCached_ok {K : Type} (derive : Int → K) (c : Option (Entry K)) (now
       subst h
       exact hc e0 rfl
 
-theorem step_ok {K : Type} (derive : Int → K) (s : State K) (hs : StateOk derive s) (op : Op) :
-    (step derive s op).1.epoch = epoch op.now ∧
-    (step derive s op).1.keys = derive (epoch op.now) ∧
-    StateOk derive (step derive s op).2 := by
+theorem step_ok {K : Type} (validNs : Int) (derive : Int → K) (s : State K) (hs : StateOk derive s) (op : Op) :
+    (step validNs derive s op).1.epoch = epoch op.now ∧
+    (step validNs derive s op).1.keys = derive (epoch op.now) ∧
+    StateOk derive (step validNs derive s op).2 := by
   obtain ⟨hc, hh⟩ := hs
   cases op with
   | lookup now j =>
-    obtain ⟨h1, h2, h3⟩ := getCached_ok derive s.cache now j hc
+    obtain ⟨h1, h2, h3⟩ := getCached_ok validNs derive s.cache now j hc
     refine ⟨h1, ?_, ?_⟩
     · simp only [step, Op.now]
       rw [← h1]; exact h2
     · exact ⟨h3, hh⟩
   | tryDecrypt now j =>
-    obtain ⟨h1, h2, h3⟩ := getCached_ok derive s.cache now j hc
+    obtain ⟨h1, h2, h3⟩ := getCached_ok validNs derive s.cache now j hc
     have viaCache :
-        (getCached derive s.cache now j).1.epoch = epoch now ∧
-        (getCached derive s.cache now j).1.keys = derive (epoch now) ∧
-        StateOk derive ⟨(getCached derive s.cache now j).2, some (getCached derive s.cache now j).1⟩ := by
+        (getCached validNs derive s.cache now j).1.epoch = epoch now ∧
+        (getCached validNs derive s.cache now j).1.keys = derive (epoch now) ∧
+        StateOk derive ⟨(getCached validNs derive s.cache now j).2, some (getCached validNs derive s.cache now j).1⟩ := by
       refine ⟨h1, by rw [← h1]; exact h2, h3, ?_⟩
       intro e h
       simp only [Option.some.injEq] at h
@@ -161,13 +161,13 @@ theorem step_ok {K : Type} (derive : Int → K) (s : State K) (hs : StateOk deri
       · rw [if_neg he]
         exact viaCache
 
-theorem run_ok {K : Type} (derive : Int → K) (s : State K) (hs : StateOk derive s) (ops : List Op) :
-    ∀ p ∈ run derive s ops, p.2.epoch = epoch p.1 ∧ p.2.keys = derive (epoch p.1) := by
+theorem run_ok {K : Type} (validNs : Int) (derive : Int → K) (s : State K) (hs : StateOk derive s) (ops : List Op) :
+    ∀ p ∈ run validNs derive s ops, p.2.epoch = epoch p.1 ∧ p.2.keys = derive (epoch p.1) := by
   induction ops generalizing s with
   | nil => intro p h; simp [run] at h
   | cons op ops ih =>
     intro p h
-    obtain ⟨h1, h2, h3⟩ := step_ok derive s hs op
+    obtain ⟨h1, h2, h3⟩ := step_ok validNs derive s hs op
     simp only [run, List.mem_cons] at h
     cases h with
     | inl h => subst h; exact ⟨h1, h2⟩
